@@ -25,7 +25,7 @@ import (
 func init() {
 	Registry["C08"] = &Check{
 		Scenarios: c08Scenarios,
-		Rule: "Two relay scenarios with a multistream (SCTP) connection B, forwarded to with Message.WriteTo and with the raw Conn.Write adaptor. Two relay scenarios: a handler of connection A blocks inside a Write to connection B (whose peer has stopped reading) while B keeps receiving - under a Server with and without ReadTimeout / WriteTimeout. In the blocked-handler mode (two of the six arrival patterns) an application goroutine polls ServeMux.ErrorReports() at every instant. Server.Serve on a scripted listener with two connections (both accepted, or one accepted and one attached with diam.NewConn); three requests per connection (re-auth, device-watchdog, capabilities-exchange, in that order) delivered as {one segment, one segment per message, split at the header/body border, first message in 10-byte pieces, first message one byte at a time}; instrumented handlers record enter/exit around a scheduling point and answer; variants: plain, and the first handler on connection A blocked for ever; in one arrival pattern the first handler of connection B requests CloseNotify (so the rest of B's messages pass through the reader switch); one arrival pattern runs on a zero Server{} (DefaultServeMux, default dictionary); every schedule up to preemption bound 3 (thorough 6). The environment is eager (all fragments queued before the server starts; a Read never crosses a fragment boundary), because the arrival instant of a fragment is unobservable to a per-connection single-threaded reader; what is explored is every interleaving of the accept loop, the per-connection readers and the handlers.",
+		Rule: "Two connections send requests no handler matches while nobody reads ErrorReports, then a handled one each. Two relay scenarios with a multistream (SCTP) connection B, forwarded to with Message.WriteTo and with the raw Conn.Write adaptor. Two relay scenarios: a handler of connection A blocks inside a Write to connection B (whose peer has stopped reading) while B keeps receiving - under a Server with and without ReadTimeout / WriteTimeout. In the blocked-handler mode (two of the six arrival patterns) an application goroutine polls ServeMux.ErrorReports() at every instant. Server.Serve on a scripted listener with two connections (both accepted, or one accepted and one attached with diam.NewConn); three requests per connection (re-auth, device-watchdog, capabilities-exchange, in that order) delivered as {one segment, one segment per message, split at the header/body border, first message in 10-byte pieces, first message one byte at a time}; instrumented handlers record enter/exit around a scheduling point and answer; variants: plain, and the first handler on connection A blocked for ever; in one arrival pattern the first handler of connection B requests CloseNotify (so the rest of B's messages pass through the reader switch); one arrival pattern runs on a zero Server{} (DefaultServeMux, default dictionary); every schedule up to preemption bound 3 (thorough 6). The environment is eager (all fragments queued before the server starts; a Read never crosses a fragment boundary), because the arrival instant of a fragment is unobservable to a per-connection single-threaded reader; what is explored is every interleaving of the accept loop, the per-connection readers and the handlers.",
 		Assume: []string{"data-race freedom between visible operations (audited separately with -race)"},
 		QuickBudget: 120, ThoroughBudget: 2400,
 	}
@@ -384,6 +384,7 @@ func c08Scenarios(tier string) []*Scenario {
 	}
 	out = append(out, c08RelayBlocked(false, bound), c08RelayBlocked(true, bound))
 	out = append(out, c08RelayBlockedMulti(false, bound), c08RelayBlockedMulti(true, bound))
+	out = append(out, c08UnmatchedNoReader(bound))
 	return out
 }
 
@@ -1174,4 +1175,49 @@ func c15ReporterPanics(fault string, bound int) *Scenario {
 	}
 	return &Scenario{Name: "faults/error-reporter-of-the-handler-panics/" + fault, Body: body, Check: check, Bound: bound, Horizon: 10 * time.Second,
 		Outcome: func(s *vs.Sched) string { return fmt.Sprintf("reports=%d B=%v", c15rp.h.reports, answersOn(c15rp.b)) }}
+}
+
+// c08UnmatchedNoReader: two connections each send two requests no handler matches (an error report
+// is offered for each; the application never reads ErrorReports, which is optional) and then one
+// that is handled. Offering a report never holds a dispatcher up: both handled requests arrive.
+var c08un struct {
+	handled map[uint32]int
+}
+
+func c08UnmatchedNoReader(bound int) *Scenario {
+	body := func() {
+		c08un.handled = map[uint32]int{}
+		lis := vnet.NewListener()
+		mux := diam.NewServeMux()
+		mux.HandleFunc("DWR", func(c diam.Conn, m *diam.Message) {
+			c08un.handled[m.Header.HopByHopID]++
+		})
+		srv := &diam.Server{Handler: mux, Dict: dict.Default}
+		for ci := 0; ci < 2; ci++ {
+			c := vnet.NewConn(string(rune('A' + ci)))
+			c.Pieces = 1
+			base := []refcodec.Node{ident(264, "c"), ident(296, "r")}
+			var all []byte
+			all = append(all, refcodec.EncodeMessage(refcodec.Header{Version: 1, Flags: 0x80, Code: 258, HbH: uint32(ci + 1), E2E: 1}, base)...)
+			all = append(all, refcodec.EncodeMessage(refcodec.Header{Version: 1, Flags: 0x80, Code: 275, HbH: uint32(ci + 1), E2E: 2}, base)...)
+			all = append(all, refcodec.EncodeMessage(refcodec.Header{Version: 1, Flags: 0x80, Code: 280, HbH: uint32(ci + 1), E2E: 3}, base)...)
+			c.Deliver(all)
+			lis.Offer(vnet.AcceptItem{Conn: c})
+		}
+		vs.GoNamed("serve", false, func() { srv.Serve(lis) })
+	}
+	check := func(s *vs.Sched) string {
+		var v []string
+		for ci := uint32(1); ci <= 2; ci++ {
+			if c08un.handled[ci] != 1 {
+				v = append(v, fmt.Sprintf("connection %c: its handled request (behind two requests no handler matches) was dispatched %d times, expected once (library goroutines blocked: %v)", 'A'+ci-1, c08un.handled[ci], s.BlockedLib()))
+			}
+		}
+		for _, p := range s.Panics() {
+			v = append(v, "panic: "+p)
+		}
+		return strings.Join(v, " | ")
+	}
+	return &Scenario{Name: "dispatch/unmatched-requests-with-no-error-report-reader", Body: body, Check: check, Bound: bound, Horizon: 10 * time.Second,
+		Outcome: func(s *vs.Sched) string { return fmt.Sprint(c08un.handled) }}
 }
